@@ -11,8 +11,8 @@ kf = json.load(open(V + '/known_findings.json'))
 files = {
  'C01': 'Model/Annot (lexer), Gen/Sites', 'C02': 'Model/Text, Spec/Lsp, Spec/TextFindings, Proofs/Text', 'C03': 'Model/Lexer, Model/Number, Model/Parser, Spec/Grammar, Gen/Lexer',
  'C04': 'Model/Lexer (ghost byte offsets), Spec/Col, Gen/Preds', 'C05': 'Model/Scope, Spec/Bind, Gen/Preds', 'C06': 'Model/Scope, Spec/Bind', 'C07': 'Spec/Bind (binder output)',
- 'C08': 'Model/Diag', 'C09': 'Model/Merge', 'C10': 'Model/Sync, Proofs/Sync, Gen/Handlers, Gen/Sites', 'C11': 'Model/Scope, Spec/Bind', 'C12': '(oracle-free cross-comparison; classes from Model/Scope + Spec/Bind)',
- 'C13': 'Model/Lexer (isUtf8), Model/Hov', 'C14': 'Model/Scope (completeAt), Spec/Bind', 'C15': 'Spec/Closure', 'C16': 'Model/Annot', 'C17': 'Model/Conf, Spec/Conf, Gen/Flags, Gen/Gates, Gen/Sites',
+ 'C08': 'Model/Diag', 'C09': 'Model/Merge', 'C10': 'Model/Sync, Proofs/Sync, Gen/Handlers, Gen/Sites', 'C11': 'Model/Scope, Spec/Bind (alpha_rename)', 'C12': '(oracle-free cross-comparison; classes from Model/Scope + Spec/Bind)',
+ 'C13': 'Model/Lexer (isUtf8), Model/Hov, Model/Comment, Proofs/Comment', 'C14': 'Model/Scope (completeAt), Spec/Bind', 'C15': 'Spec/Closure', 'C16': 'Model/Annot', 'C17': 'Model/Conf, Spec/Conf, Gen/Flags, Gen/Gates, Gen/Sites',
  'C18': 'Model/Mod', 'C19': 'Spec/Outline, Gen/Symbols', 'C20': 'Model/Pat'}
 out = [open(V + '/tools/design_head.md').read()]
 for pid in sorted(checks):
